@@ -1,5 +1,5 @@
 # replay of a bounded stand-in violation (C04): re-run native/c04_reorder.py
 import sys
-print('get_dependencies of X0>1 = [0], expected [0, 1]')
+print('gbs compile [mode 0 deleted, mode 1 measured]: merged MeasureFock acts on modes [2], the program measures modes [1]')
 print('REPLAY-VIOLATION')
 sys.exit(1)
